@@ -327,9 +327,10 @@ def summarise(t):
                     continue
                 if isinstance(init, tuple) and init and init[0] in ("if", "match", "seq"):
                     # value computed by a branching expression: keep as a conditional value
+                    br = sub(init)
                     counter[0] += 1
                     sym = ("R%d" % counter[0],)
-                    events.append(("branch", sub(init)))
+                    events.append(("branch", br))
                     env[name] = sym
                     continue
                 if isinstance(init, tuple) and init and init[0] == "try" and isinstance(init[1], tuple) and init[1][0] == "var":
